@@ -15,15 +15,17 @@ EXPLANATION = ("ac2poly, ac2rc, poly2ac, poly2rc, rc2poly, rc2ac (through the re
                "functions constrained only by their inverse-pair axioms, pi symbolic: that decides the plumbing (signs, factors 2 and pi/2, "
                "domain checks) for every argument. lsf2poly is executed on symbolic increasing frequencies in (0, pi) (exp(j w) = cos w + j sin w on "
                "uninterpreted cos / sin with cos^2 + sin^2 = 1) and compared with the DEFINITION of line spectral frequencies: the sum and "
-               "difference filters of the returned polynomial have exactly the prescribed unit-circle roots (interlaced sets, trivial roots at z = -1 / +1).")
+               "difference filters of the returned polynomial have exactly the prescribed unit-circle roots (interlaced sets, trivial roots at z = -1 / +1). The algebraic half of poly2lsf is decided too: the polynomials "
+               "handed to numpy.roots are the difference / sum filters of A with exactly their trivial roots divided out (numpy.roots replaced by a recorder, "
+               "scipy.signal.deconvolve by exact long division).")
 BOUNDS = {
-    "quick": "order <= 4 real, <= 3 complex for the rational conversions; vector length <= 2 for lar / inverse-sine; lsf2poly orders 1..16",
-    "thorough": "order <= 6 real, <= 4 complex; length <= 3 for lar / inverse-sine; lsf2poly orders 1..16",
+    "quick": "order <= 4 real, <= 3 complex for the rational conversions; vector length <= 2 for lar / inverse-sine; lsf2poly and the poly2lsf filters: orders 1..16",
+    "thorough": "order <= 6 real, <= 4 complex; length <= 3 for lar / inverse-sine; lsf2poly and the poly2lsf filters: orders 1..16",
 }
 ASSUMPTIONS = ["floats modelled as exact reals", "domain: |k_i| < 1, r0 > 0 (or LEVINSON's own positive-definiteness path condition)",
                "tanh, arctanh, sin, arcsin: uninterpreted, with tanh(arctanh y)=y, arctanh(tanh y)=y, sin(arcsin y)=y (|y|<=1), "
                "arcsin(sin y)=y (|y|<=pi/2) instantiated on the applications that occur; pi symbolic in (3.14159265, 3.14159266)"]
-OUTSIDE = ["poly2lsf (and therefore the round trip poly -> lsf -> poly and 'frequencies strictly increasing'): poly2lsf relies on the ORDER in which LAPACK's eigenvalue routine (numpy.roots) returns conjugate pairs "
+OUTSIDE = ["the root extraction of poly2lsf (and therefore the round trip poly -> lsf -> poly and 'frequencies strictly increasing'): poly2lsf relies on the ORDER in which LAPACK's eigenvalue routine (numpy.roots) returns conjugate pairs "
            "(rP[1::2]); no documented contract fixes it, so modelling it would be modelling LAPACK - not claimed; the lsf -> poly direction is decided against the definition",
            "orders above the bounds (property text: up to 16)"]
 BUDGET = {"quick": 900, "thorough": 3400}
@@ -282,9 +284,97 @@ def case_lsf2poly(h, p):
         h.claim_real("a[%d] real" % j, a[j])
 
 
+def _deconv_exact(num, den):
+    """polynomial long division (what scipy.signal.deconvolve computes): quotient, remainder"""
+    num = [v for v in num]
+    den = [v for v in den]
+    nq = len(num) - len(den) + 1
+    if nq <= 0:
+        return [], num
+    rem = list(num)
+    quo = []
+    for i in range(nq):
+        c = rem[i] / den[0]
+        quo.append(c)
+        for j, d in enumerate(den):
+            rem[i + j] = rem[i + j] - c * d
+    return quo, rem
+
+
+def case_poly2lsf_filters(h, p):
+    """the algebraic half of poly2lsf: the two polynomials whose roots it extracts are the difference / sum filters of A with
+    their trivial roots (z=1; z=-1; both for odd order) divided out exactly. numpy.roots itself (LAPACK) is replaced by a
+    recorder, so nothing is claimed about the angles it leads to."""
+    import sys as _sys
+    S = sp()
+    LP = _sys.modules['spectrum.linear_prediction']
+    a = [1] + [h.real('a%d' % i) for i in range(1, p + 1)]
+    seen = []
+    if h.is_sym():
+        from symx.array import SymArray, to_symarray
+        arr = SymArray.make(a)
+
+        def roots_rec(c):
+            seen.append([v for v in to_symarray(c)])
+            return np.exp(1j * np.linspace(0.3, 2.8, max(len(c) - 1, 0))) * 0.5
+
+        def deconv(num, den):
+            qv, rv = _deconv_exact(list(to_symarray(num)), list(den))
+            return SymArray.make(qv), SymArray.make(rv)
+        ov = LP.numpy.__dict__['_ov']
+        saved = (ov.get('roots'), LP.deconvolve)
+        ov['roots'] = roots_rec
+        LP.deconvolve = deconv
+        try:
+            LP.poly2lsf(arr)
+        finally:
+            LP.deconvolve = saved[1]
+            if saved[0] is None:
+                ov.pop('roots', None)
+            else:
+                ov['roots'] = saved[0]
+    else:
+        import numpy as _np
+        real_roots = _np.roots
+
+        def roots_rec(c):
+            seen.append([v for v in _np.asarray(c)])
+            return real_roots(c)
+        _np.roots = roots_rec
+        try:
+            try:
+                LP.poly2lsf(np.array(a, dtype=float))
+            except Exception:
+                pass        # unstable polynomial rejected etc.: the recorded arguments are what is examined
+        finally:
+            _np.roots = real_roots
+    if len(seen) < 3:
+        if h.is_sym():
+            h.fail("roots calls", "numpy.roots called %d times, expected 3 (stability test, P, Q)" % len(seen))
+        return
+    P, Q = seen[1], seen[2]
+    ext = a + [0]
+    rev = ext[::-1]
+    dif = [ext[i] - rev[i] for i in range(p + 2)]
+    sm = [ext[i] + rev[i] for i in range(p + 2)]
+    if p % 2:
+        wantP, wantQ = _pmul(P, [1, 0, -1]), list(Q)
+    else:
+        wantP, wantQ = _pmul(P, [1, -1]), _pmul(Q, [1, 1])
+    if len(wantP) != p + 2 or len(wantQ) != p + 2:
+        h.fail("filter lengths", "P*trivial has %d coefficients, Q*trivial %d, expected %d" % (len(wantP), len(wantQ), p + 2))
+        return
+    for i in range(p + 2):
+        h.claim_eq("difference filter[%d] = P * trivial roots" % i, wantP[i], dif[i])
+        h.claim_eq("sum filter[%d] = Q * trivial roots" % i, wantQ[i], sm[i])
+
+
 def cases(tier, seed):
     q = tier == 'quick'
     out = []
+    for p in range(1, 17):
+        out.append(Case("poly2lsf:filters:p=%d" % p, case_poly2lsf_filters, dict(p=p), timeout=60 if q else 300, max_paths=8,
+                        feas_timeout=3, max_decisions=16))
     for p in range(1, 17):
         out.append(Case("lsf2poly:definition:p=%d" % p, case_lsf2poly, dict(p=p), timeout=60 if q else 300, max_paths=32,
                         feas_timeout=5, max_decisions=40))
